@@ -106,6 +106,19 @@ def oracle(tier, rng, deep=False):
                     other[1]().fit(X2 if other[0] not in ("WeightedLasso", "GroupLasso") else X, y2 if other[0] not in ("WeightedLasso", "GroupLasso") else y)
                 except Exception:
                     pass
+                # ... and regularisation paths / experimental estimators that rewrite hyper-parameters of their compiled penalty
+                # (penalty.alpha = ...) run in between, with the same scalar hyper-parameters as the target estimator
+                Xr, yr = data("real", n + 1, p)
+                grid = np.array([0.5, 0.1, 0.013])
+                for disturb in (lambda: Lasso(alpha=0.05, tol=1e-8).path(Xr, yr, alphas=grid),
+                                lambda: ElasticNet(alpha=0.05, l1_ratio=0.6, tol=1e-8).path(Xr, yr, alphas=grid),
+                                lambda: MCPRegression(alpha=0.05, gamma=3.0, tol=1e-8).path(Xr, yr, alphas=grid),
+                                lambda: SqrtLasso(alpha=0.3, tol=1e-8).path(Xr, yr, alphas=np.array([0.2, 0.1])),
+                                lambda: ss.AndersonCD(tol=1e-8).path(np.asfortranarray(Xr), yr, sl.cc(sd.Quadratic()), sl.cc(sp.L1(0.05)), alphas=grid)):
+                    try:
+                        disturb()
+                    except Exception:
+                        pass
                 bX, by = X.tobytes(), y.tobytes()
                 est.fit(X, y)
                 est.fit(X, y)
